@@ -342,6 +342,7 @@ func runRename(res *vh.Result, seed uint64, n int, known bool, outDir string, ki
 		runPrintCases(seed, 6000, outDir, res.Extra)
 		runRewriteCases(seed, 6000, outDir, res.Extra)
 		runStmtCases(seed, 6000, outDir, res.Extra)
+		runNumLitCases(seed, 6000, outDir, res.Extra)
 		return
 	}
 	fmt.Fprintf(fin, "rename_keywords\t%s\n", strings.Join(kh, ","))
